@@ -183,15 +183,15 @@ def retry_timeouts(answers, timed_out, skipped, rerun):
     return n
 
 
-def static_objects(repo, scratch):
-    """compile pcp_server.c of the tree under test and list (a) the objects of static storage duration it defines
+def static_objects(repo, scratch, unit="pcp_server.c"):
+    """compile pcp_server.c (or another unit of src/pdsh) of the tree under test and list (a) the objects of static storage duration it defines
     (nm types B b D d C: data, bss, common -- function-local statics appear as `name.N`), (b) the functions it calls.
     Returns (sorted names of (a) without the `.N` suffix, sorted names of (b)) or None when it does not compile."""
     import subprocess
-    obj = os.path.join(scratch, "pcp_server_nm.o")
+    obj = os.path.join(scratch, unit.replace(".c", "_nm.o"))
     # -fno-pie: constant tables of pointers stay in .rodata (with PIE they move to .data.rel.ro and would look writable)
     p = subprocess.run(["gcc", "-c", "-w", "-O0", "-fno-pie", "-fno-pic", "-DHAVE_CONFIG_H", "-I" + repo, "-I" + repo + "/src/pdsh",
-                        "-I" + repo + "/src/common", os.path.join(repo, "src/pdsh/pcp_server.c"), "-o", obj],
+                        "-I" + repo + "/src/common", os.path.join(repo, "src/pdsh", unit), "-o", obj],
                        stdout=subprocess.PIPE, stderr=subprocess.PIPE)
     if p.returncode != 0:
         return None
